@@ -450,17 +450,24 @@ def a4(prog):
         if len(cands) != 1:
             raise Broken("operator!(pred_result) vanished")
         f = cands[0]
-    from r_scope import switch_groups
-    sw = [x for x in walk(f["body"]) if x.get("k") == "switch"]
-    if len(sw) != 1:
-        raise Broken("operator!(pred_result) is no longer a switch table (unmodelled shape)")
+    # the table is read off by interpreting the function on the three enumerators (any spelling: switch, if-chain, arithmetic)
+    from absint import Evaluator, Thrown
+    enum = None
+    for e in prog.enums.values():
+        if e["q"] == "pred_result":
+            enum = {c["n"]: ("enum", c["n"], c["v"]) for c in e["consts"]}
+    if enum is None:
+        raise Broken("enum pred_result vanished")
+    ev0 = Evaluator({"abort": lambda ev, o, a: (_ for _ in ()).throw(Thrown("abort"))}, {}, prog=prog)
     table = {}
-    for labels, stmts in switch_groups(sw[0]):
-        ret = [x for s in stmts for x in walk(s) if x.get("k") == "return"]
-        for l in labels:
-            if isinstance(l, dict) and ret:
-                r = unwrap(ret[0]["e"])
-                table[l.get("n") or unwrap(l).get("n")] = r.get("n") if isinstance(r, dict) else None
+    for n, v in enum.items():
+        try:
+            r = ev0.call(f, None, [v])
+        except Thrown as x:
+            r = "aborts"
+        if isinstance(r, int) and not isinstance(r, bool):
+            r = next((k for k, e in enum.items() if e[2] == r), r)
+        table[n] = r[1] if isinstance(r, tuple) else r
     want = {"no": "yes", "yes": "no", "fail": "fail"}
     key = "A4:operator!"
     inst.append((key, {"table": table}))
@@ -478,8 +485,28 @@ def a4(prog):
     pn = prog.func_opt("pred_not::result")
     if pn is None:
         raise Broken("pred_not::result vanished")
-    rets = [x for x in walk(pn["body"]) if x.get("k") == "return"]
-    ok = len(rets) == 1 and isinstance(unwrap(rets[0]["e"]), dict) and unwrap(rets[0]["e"]).get("fn") == "operator!"
+    # pred_not::result interpreted with an inner predicate answering each of the three values: it must answer the negation table
+    class Inner:
+        def __init__(self, v):
+            self.v = v
+            self.addr = id(self)
+    ev1 = Evaluator({"pred::result": lambda ev, o, a: o.v, "method:result": lambda ev, o, a: o.v,
+                     "abort": lambda ev, o, a: (_ for _ in ()).throw(Thrown("abort"))}, {}, prog=prog)
+    ok = True
+    for n, v in enum.items():
+        this = type("PredNot", (), {})()
+        flds = [fl["n"] for fl in prog.records.get("pred_not", {}).get("fields", []) if "pred" in fl.get("t", "")]
+        if len(flds) != 1:
+            raise Broken("pred_not no longer holds exactly one inner predicate")
+        setattr(this, flds[0], Inner(v))
+        this.addr = 1
+        try:
+            r = ev1.call(pn, this, [None, None])
+        except Thrown:
+            r = None
+        got = r[1] if isinstance(r, tuple) else r
+        if got != want[n]:
+            ok = False
     inst.append(("A4:pred_not::result", {"is_negation_of_inner": ok}))
     if not ok:
         findings.append({"key": "A4:pred_not::result", "where": pn["l"], "msg": "pred_not::result is no longer `! inner->result(..)`", "detail": None})
@@ -565,43 +592,192 @@ OUTER_STACK_OPS = {"op_subx::next": "let/infix operand: yields the saved outer s
 
 
 def a6(prog):
-    """the stack produced by the inner chain never becomes the yielded stack of let / infix operands / capture"""
+    """op_subx::next (let, infix operands: keep = number of values bound) and op_capture::next ([E]) interpreted from source together
+    with the stack class they use, with an upstream that serves outer stacks and a sub-expression chain that, per outer stack, serves
+    0-2 inner stacks which dropped, replaced and pushed values below and above what is kept: every yielded stack consists of exactly
+    the outer stack's values (same values, same order) plus - for subx - the top `keep` values of the inner stack in their order, or
+    - for capture - one sequence holding the top value of each inner stack in order; the sub-expression is fed a copy, never the
+    outer stack itself; once per inner stack (subx) / once per outer stack (capture)."""
+    from cxxobj import CxxEvaluator, Obj, Vec, OutOfBounds
+    from absint import Thrown
     inst, findings = [], []
-    for q in OUTER_STACK_OPS:
-        f = prog.func_opt(q)
-        if f is None:
+
+    def one(q):
+        fs = [f for f in prog.funcs.values() if f["q"] == q and f.get("body") is not None]
+        if len(fs) != 1:
             raise Broken("anchor %s vanished" % q)
-        inner = {}
-        for x in walk(f["body"]):
-            vs = []
-            if x.get("k") == "decl":
-                vs = x["vars"]
-            elif x.get("k") in ("if", "while") and x.get("var"):
-                vs = [x["var"]]
-            for v in vs:
-                i = unwrap(v.get("init"))
-                if isinstance(i, dict) and i.get("k") == "call" and i.get("fn") == "next":
-                    ch = None
-                    from zw import field_chain
-                    ch = field_chain(i.get("obj"))
-                    if ch and ch[0] == "this" and ch[1][:1] != ["m_upstream"]:
-                        inner[v["id"]] = (v["n"], ".".join(ch[1]))
-        if not inner:
-            raise Broken("%s no longer binds the inner chain's result to a variable (unmodelled shape)" % q)
+        return fs[0]
+    push = [f for f in prog.funcs.values() if f.get("cls") == "stack" and f["n"] == "push" and f.get("body") is not None]
+    if len(push) != 1:
+        raise Broken("anchor stack::push vanished")
+
+    class El:
+        def __init__(self, name, clone_of=None):
+            self.name, self.clone_of = name, clone_of
+            self.addr = id(self)
+
+        def copy_value(self):
+            return self
+
+        def root(self):
+            return self if self.clone_of is None else self.clone_of.root()
+
+        def __repr__(self):
+            return self.name
+
+    class Ty:
+        def __init__(self, c):
+            self.m_code = c
+
+        def copy_value(self):
+            return Ty(self.m_code)
+
+    class Src:
+        def __init__(self):
+            self.queue = []
+            self.addr = id(self)
+    fed = []
+    plan = {}
+
+    def op_next(ev, o, a):
+        if isinstance(o, Src):
+            return o.queue.pop(0) if o.queue else None
+        raise Broken("op::next on an object the model does not know")
+
+    def set_next(ev, o, a):
+        fed.append(a[1])
+        o.inner.queue = [mk() for mk in plan["inner"]]
+        return None
+    states = {}
+    seqs = []
+
+    def mk_seq(ev, o, a):
+        # value_seq (seq_t &&, pos) / make_unique<value_seq>: remember the elements
+        q = Obj("value_seq")
+        items = a[0]
+        q.items = list(items.items) if hasattr(items, "items") and not callable(items.items) else items
+        q.pos = a[1] if len(a) > 1 else None
+        q.name, q.clone_of = "<seq>", None
+        q.root = lambda q_=q: q_
+        seqs.append(q)
+        return q
+    hooks = {
+        "zw_value::clone": lambda ev, o, a: El(o.name, clone_of=o) if isinstance(o, El) else o,
+        "zw_value::get_type": lambda ev, o, a: Ty(1),
+        "value_type::code": lambda ev, o, a: o.m_code,
+        "op::next": op_next,
+        "op::state_des": lambda ev, o, a: None,
+        "op::state_con": lambda ev, o, a: None,
+        "op_origin::set_next": set_next,
+        "scon::get<*": lambda ev, o, a: states["st"],
+        "method:get": lambda ev, o, a: o,
+        "method:release": lambda ev, o, a: o,
+        "ctor:value_seq": mk_seq,
+        "std::make_unique<value_seq*": mk_seq,
+        "ctor:std::runtime_error": lambda ev, o, a: "exc",
+    }
+    w = prog.globals.get("selector::W")
+    W = (w.get("init") or {}).get("iv") if w else None
+    ev = CxxEvaluator(hooks, {"selector::W": W} if W is not None else {}, prog=prog)
+
+    def mkstack(els):
+        st = Obj("stack")
+        st.m_values, st.m_profile = Vec([], "values"), 0
+        for e in els:
+            ev.call(push[0], st, [e])
+        return st
+
+    def names(st):
+        return [repr(x) for x in st.m_values.items]
+    for q, cls, stcls in (("op_subx::next", "op_subx", "op_subx::state"), ("op_capture::next", "op_capture", None)):
+        f = one(q)
         key = "A6:" + q
-        bad = []
-        nret = 0
-        for r in walk(f["body"]):
-            if r.get("k") == "return" and r.get("e") is not None and not is_null_stack_expr(r["e"]):
-                nret += 1
-                e = unwrap(r["e"])
-                if isinstance(e, dict) and e.get("k") == "ref" and e.get("id") in inner:
-                    bad.append((r["l"], inner[e["id"]]))
-        inst.append((key, {"inner_results": sorted(v[0] for v in inner.values()), "yielding_returns": nret}))
-        for loc, (vn, chain) in bad:
-            findings.append({"key": key, "where": loc,
-                             "msg": "%s returns `%s`, the stack produced by its sub-expression chain %s, instead of the outer stack: whatever the sub-expression did below the kept values (drop, swap, replace) leaks into the surrounding stack" % (q, vn, chain),
-                             "detail": None})
+        bad = None
+        n = 0
+        keeps = (0, 1, 2) if cls == "op_subx" else (None,)
+        for keep in keeps:
+            for n_inner in (0, 1, 2):
+                for n_outer in (1, 2):
+                    outers = []
+                    for j in range(n_outer):
+                        outers.append([El("a%d" % j), El("b%d" % j)])
+                    up, inner = Src(), Src()
+                    up.queue = [mkstack(o) for o in outers]
+                    outer_stacks = list(up.queue)
+                    origin = Obj("op_origin")
+                    origin.inner = inner
+                    # each inner stack: the sub-expression replaced what was below and left its own values on top
+                    inner_vals = []
+
+                    def maker(i):
+                        def mk():
+                            vals = [El("junk%d" % i), El("x%d" % i), El("y%d" % i)]
+                            inner_vals.append(vals)
+                            return mkstack(vals)
+                        return mk
+                    plan["inner"] = [maker(i) for i in range(n_inner)]
+                    del fed[:]
+                    del seqs[:]
+                    this = Obj(cls)
+                    this.m_upstream, this.m_origin, this.m_op, this.m_ll = up, origin, inner, 0
+                    if keep is not None:
+                        this.m_keep = keep
+                    if stcls:
+                        states["st"] = ev.new_object(stcls)
+                    ev.steps = 0
+                    got = []
+                    try:
+                        for _ in range(n_outer * max(n_inner, 1) + 2):
+                            r = ev.call(f, this, [Obj("scon")])
+                            n += 1
+                            if r is None:
+                                break
+                            got.append(r)
+                    except OutOfBounds as x:
+                        bad = bad or "%s: %s" % (q, x)
+                        continue
+                    except Thrown as x:
+                        bad = bad or "%s raises an error (%s)" % (q, x)
+                        continue
+                    # expected results
+                    want = []
+                    k_in = 0
+                    for j, o in enumerate(outers):
+                        if cls == "op_subx":
+                            for i in range(n_inner):
+                                vals = inner_vals[k_in] if k_in < len(inner_vals) else None
+                                k_in += 1
+                                want.append((o, [v for v in (vals or [])[len(vals or []) - keep:]] if keep else []))
+                        else:
+                            tops = []
+                            for i in range(n_inner):
+                                vals = inner_vals[k_in] if k_in < len(inner_vals) else None
+                                k_in += 1
+                                tops.append(vals[-1] if vals else None)
+                            want.append((o, tops))
+                    what = "%s with %s, %d outer stack(s), %d result(s) of the sub-expression per stack" % (
+                        q, ("keep=%d" % keep) if keep is not None else "capture", n_outer, n_inner)
+                    if len(got) != len(want):
+                        bad = bad or "%s yields %d stacks, expected %d" % (what, len(got), len(want))
+                        continue
+                    for r, (o, extra) in zip(got, want):
+                        vals = r.m_values.items
+                        base, top = vals[:len(o)], vals[len(o):]
+                        if [v.root() for v in base if hasattr(v, "root")] != o or len(base) != len(o):
+                            bad = bad or "%s yields the stack %s whose lower part is not the incoming stack %s" % (what, names(r), [repr(x) for x in o])
+                        elif cls == "op_subx" and [v.root() for v in top] != extra:
+                            bad = bad or "%s yields %s; expected the incoming stack %s plus the kept values %s" % (what, names(r), [repr(x) for x in o], [repr(x) for x in extra])
+                        elif cls == "op_capture" and not (len(top) == 1 and getattr(top[0], "_cls", None) == "value_seq"
+                                                         and [getattr(x, "root", lambda: x)() for x in (top[0].items.items if hasattr(top[0].items, "items") else top[0].items)] == extra):
+                            bad = bad or "%s yields %s; expected the incoming stack %s plus one sequence of the tops %s" % (what, names(r), [repr(x) for x in o], [repr(x) for x in extra])
+                        if r in outer_stacks and cls == "op_capture" and False:
+                            pass
+                    for s_ in fed:
+                        if s_ in outer_stacks and any(s_ is r for r in got):
+                            bad = bad or "%s hands the sub-expression the very stack it later yields" % what
+        inst.append((key, {"next_calls": n}))
+        if bad:
+            findings.append({"key": key, "where": "libzwerg/" + f["l"], "msg": bad + ": whatever the sub-expression did below the kept values (drop, swap, replace) must not leak into the surrounding stack", "detail": None})
     return inst, findings
 
 
@@ -737,4 +913,165 @@ def a8(prog):
                                     "predicate one of them then holds although x itself failed (an erroring predicate must answer fail so that neither holds)" % (f["q"], v),
                              "detail": None})
     inst.append(("A8:functions", {"returning_pred_result": nfun, "reporting": nrep}))
+    return inst, findings
+
+
+# ---------------------------------------------------------------------------
+# A1b: predicates do not modify the values they are asked about
+
+STD_MUT = VEC_SHAPE | {"operator=", "operator+=", "reset", "append", "push_front", "pop_front", "sort", "reverse", "merge", "splice", "remove", "unique", "replace"}
+
+
+def _is_handle(t):
+    t = (t or "").strip()
+    return t.endswith("&") or t.endswith("*") or t.startswith(("std::shared_ptr<", "std::unique_ptr<", "const std::shared_ptr<", "const std::unique_ptr<"))
+
+
+def field_writers(prog):
+    """fids of member functions of the repository's classes that may modify the object they are called on: they assign/increment a
+    field, call a mutating standard-container member on a field, or call another such member function on `this` or on a field
+    (fixpoint).  const member functions cannot (mutable members are ruled out by Q1)."""
+    from zw import field_chain
+    direct, callsto = set(), {}
+    meths = [f for f in prog.funcs.values() if f.get("cls") and f.get("body") is not None and not f.get("const") and not f.get("isctor") and not f.get("isdtor")
+             and not f.get("static")]
+    for f in meths:
+        for x in walk_nolambda(f["body"]):
+            k = x.get("k")
+            tgt = None
+            if k == "asg":
+                tgt = x.get("lhs")
+            elif k == "un" and x.get("op") in ("++", "--", "post++", "post--", "++pre", "--pre"):
+                tgt = x.get("e")
+            elif k == "call" and x.get("obj") is not None and not x.get("own") and x.get("fn") in STD_MUT:
+                tgt = x["obj"]
+            elif k == "call" and x.get("op") in ("=", "+=", "-=") and x.get("a"):
+                tgt = x["a"][0]
+            if tgt is not None:
+                fc = field_chain(tgt)
+                # a field, or - for a class derived from a standard container - the object itself
+                if fc and fc[0] == "this" and (fc[1] or (k == "call" and not x.get("own"))):
+                    direct.add(f["fid"])
+                # writes through an iterator / reference obtained from a member (e.g. `it->length = ..` with it = find ())
+            if k in ("asg", "un") and tgt is not None and isinstance(tgt, dict):
+                fc = field_chain(tgt)
+                if fc and fc[0].startswith("local:") and "*" in fc[1]:
+                    loc_id = fc[0].split(":")[1]
+                    for d in walk_nolambda(f["body"]):
+                        if d.get("k") == "decl":
+                            for v in d["vars"]:
+                                if str(v["id"]) == loc_id and v.get("init") is not None and not (v.get("t") or "").startswith("const "):
+                                    for y in walk_nolambda(v["init"]):
+                                        if y.get("k") == "this" or (y.get("k") == "call" and y.get("obj") is None and y.get("ismethod")):
+                                            direct.add(f["fid"])
+            if k == "call" and x.get("own") and x.get("ismethod"):
+                o = x.get("obj")
+                fc = field_chain(o) if o is not None else ("this", [])
+                if fc and fc[0] == "this":
+                    callsto.setdefault(f["fid"], set()).add(x.get("fid"))
+    w = set(direct)
+    changed = True
+    while changed:
+        changed = False
+        for fid, cs in callsto.items():
+            if fid not in w and cs & w:
+                w.add(fid)
+                changed = True
+    return w, len(meths)
+
+
+# objects that are reachable from a value but are not part of it (one row per class, with the reason)
+A1B_NOT_PART_OF_VALUE = {
+    "dwfl_context": "the per-file context shared by all values of that file: its only mutable members are the parent/root memo tables, filled from the "
+                    "immutable DWARF data on demand; no value's comparison or rendering reads them (their correctness is C05's I-rules)",
+}
+
+
+def a1b(prog):
+    """A predicate's operands stay on the stack, so `result` must leave them as they are: in every override of pred::result and of
+    the typed pred_overload<...>::result, no assignment goes through, and no modifying member function (field_writers; mutating
+    members of standard containers) is called on, an expression that denotes an operand or part of it - a reference parameter, what a
+    getter returns by reference or smart pointer from it, what stack::top/get return, a downcast of those, or a local reference /
+    pointer / smart pointer initialised from any of them.  Copies (locals of value type) are free to change."""
+    from zw import field_chain
+    inst, findings = [], []
+    writers, nmeth = field_writers(prog)
+    preds = [f for f in prog.funcs.values() if f["n"] == "result" and f.get("ret") == "pred_result" and f.get("body") is not None and f.get("cls")]
+    if len(preds) < 40:
+        raise Broken("only %d predicate result functions found (floor 40)" % len(preds))
+    inst.append(("A1b:writers", {"member_functions_scanned": nmeth, "may_modify_their_object": len(writers)}))
+    for f in sorted(preds, key=lambda f: f["fid"]):
+        rooted = {p["id"] for p in f["params"] if _is_handle(p["t"]) and "scon" not in p["t"] and not p["t"].startswith("const ")}
+
+        def is_rooted(e):
+            e0 = e
+            for _ in range(12):
+                if not isinstance(e, dict):
+                    return False
+                k = e.get("k")
+                if k == "ref":
+                    return e.get("id") in rooted
+                if k in ("mem",):
+                    e = e.get("b")
+                elif k in ("cast", "paren", "mte"):
+                    e = e.get("e")
+                elif k == "un" and e.get("op") in ("*", "&"):
+                    e = e.get("e")
+                elif k == "idx":
+                    e = e.get("b")
+                elif k == "ctor" and e.get("cm") and len(e.get("a", [])) == 1:
+                    e = e["a"][0]
+                elif k == "call":
+                    callee = prog.funcs.get(e.get("fid"))
+                    ret = (callee or {}).get("ret") or ""
+                    if e.get("obj") is not None and (e.get("fn") in ("operator->", "operator*", "get", "top", "at", "operator[]", "front", "back", "begin", "end", "value")
+                                                     or _is_handle(ret) or (callee is None and e.get("own"))):
+                        e = e["obj"]
+                    elif e.get("op") in ("->", "*", "[]") and e.get("a"):
+                        e = e["a"][0]
+                    elif (e.get("f") or "").startswith(("zw_value::as<", "value::as<", "std::move<", "std::forward<", "std::addressof<", "std::get<")) and e.get("a"):
+                        e = e["a"][0]
+                    else:
+                        return False
+                else:
+                    return False
+            return False
+        decls = [v for x in walk_nolambda(f["body"]) if x.get("k") == "decl" for v in x["vars"]]
+        decls += [x["var"] for x in walk_nolambda(f["body"]) if x.get("k") in ("if", "while", "for") and isinstance(x.get("var"), dict)]
+        changed = True
+        while changed:
+            changed = False
+            for v in decls:
+                if v["id"] not in rooted and _is_handle(v.get("t")) and not (v.get("t") or "").startswith("const ") and v.get("init") is not None and is_rooted(v["init"]):
+                    rooted.add(v["id"])
+                    changed = True
+        key = "A1b:" + f["q"]
+        bad = None
+        for x in walk_nolambda(f["body"]):
+            k = x.get("k")
+            if k == "asg" or (k == "un" and x.get("op") in ("++", "--", "post++", "post--")):
+                tgt = x.get("lhs") if k == "asg" else x.get("e")
+                if isinstance(tgt, dict) and tgt.get("k") != "ref" and is_rooted(tgt):
+                    bad = bad or (x.get("l"), "assigns through `%s`" % short(tgt))
+            if k != "call":
+                continue
+            o = x.get("obj")
+            if o is None and x.get("op") in ("=", "+=") and x.get("a"):
+                o = x["a"][0]
+                if is_rooted(o) and not (isinstance(o, dict) and o.get("k") == "ref"):
+                    bad = bad or (x.get("l"), "assigns to `%s`" % short(o))
+                continue
+            if o is None or x.get("cls") == "stack":
+                continue
+            if x.get("own"):
+                if x.get("cls") in A1B_NOT_PART_OF_VALUE:
+                    continue
+                if x.get("fid") in writers and is_rooted(o):
+                    bad = bad or (x.get("l"), "calls %s, which modifies its object, on `%s`" % (x.get("f"), short(o)))
+            elif x.get("fn") in STD_MUT and is_rooted(o):
+                bad = bad or (x.get("l"), "calls the mutating %s on `%s`" % (x.get("fn"), short(o)))
+        inst.append((key, {"handles_tracked": len(rooted)}))
+        if bad:
+            findings.append({"key": key, "where": "libzwerg/" + str(bad[0] or f["l"]),
+                             "msg": "predicate %s %s: its operands stay on the stack, so `?x` would change the values it is asked about" % (f["q"], bad[1]), "detail": None})
     return inst, findings
